@@ -54,7 +54,7 @@ static ctx_handler_t handlers[NH] = { h0, h1, h2, h3, h4, h5, h6, h7 };
 typedef struct { int id; unsigned long state; } lvl_t;
 static lvl_t stk[600], stk_save[600];
 static int depth;               /* index of the innermost level; level 0 = null context */
-#define MAXCTX 256
+#define MAXCTX 300          /* (more than the 8-bit index of the library can count: the 256th registration has to be refused, not wrapped) */
 static char ctxname[MAXCTX][24];
 static int ctxh[MAXCTX];           /* handler index, -1 = built-in null handler */
 static int nctx;                   /* ids 0..nctx-1 (0 = null) */
@@ -349,6 +349,14 @@ static void exec_c09(const plan_t *p)
             prog_on_heap = 1;
             snprintf(ref_magic, sizeof(ref_magic), "<%s-", nm);
             probe_hit("program_renamed");
+        } else if (!strcmp(k, "env") && o->has_s) {
+            /* the environment changes between two parses: a value delivered later is expanded with what holds then */
+            char nm[64], vl[256];
+            snprintf(nm, sizeof(nm), "%.*s", (int)(o->slen < 60 ? o->slen : 60), (const char *)o->s);
+            snprintf(vl, sizeof(vl), "%.*s", (int)(o->has_t ? (o->tlen < 250 ? o->tlen : 250) : 0), o->has_t ? (const char *)o->t : "");
+            if (!nm[0] || strchr(nm, '=')) continue;
+            if (o->a[0]) unsetenv(nm); else setenv(nm, vl, 1);
+            probe_hit("environment_changed_between_parses");
         } else
         if (!strcmp(k, "file") && o->has_s && o->has_t) {
             char nm[128];
@@ -525,7 +533,15 @@ static void gen_c09(plan_t *p, rng_t *r)
           else { static const int outs[] = { FO_FULL, FO_FULL, FO_FULL, FO_ENOENT, FO_EMFILE, FO_EACCES }; int out = outs[rng_below(r, q == 0 ? 3 : 6)];
                  op_fault(o, FAULT(FC_OPEN, out, out == FO_FULL && rng_chance(r, 1, 3) ? 1 : 0)); }
       } }
-    if (rng_chance(r, 1, 6)) { o = plan_op(p, 0, "parse", 1, 0L); op_str(o, "root.cfg", 8); }
+    if (rng_chance(r, 1, 6) || (gen_expansions && rng_chance(r, 1, 2))) {
+        if (gen_expansions && rng_chance(r, 2, 3)) {
+            static const char *names[] = { "HOME", "V1", "HOME", "EMPTY", "NOSUCH" };
+            static const char *vals[] = { "/other/home", "second value", "", "/", "x y" };
+            const char *nm = names[rng_below(r, 5)], *v = vals[rng_below(r, 5)];
+            o = plan_op(p, 0, "env", 1, (long)rng_chance(r, 1, 4)); op_str(o, nm, strlen(nm)); op_str2(o, v, strlen(v));
+        }
+        o = plan_op(p, 0, "parse", 1, 0L); op_str(o, "root.cfg", 8);
+    }
     if (rng_chance(r, 1, 8)) {
         /* the program takes another name (once or twice) and reads a file written for that name; files written for the old name are
            now somebody else's */
